@@ -280,8 +280,12 @@ CLAIMS = {
               "proved - they are exercised by directed scenarios (gRPC clients = the nacos_rust_client crate: the node a client "
               "is connected to is killed, a node that learned the instances by snapshot must drop them too; class flips; "
               "heartbeat flush); the model is hand-written and tied to the code only through the "
-              "cluster scenarios' agreement oracle; observed: a register/deregister/register of one persistent instance "
-              "issued back to back can lose the last registration on every node (the nodes agree) - recorded in DESIGN.md"),
+              "cluster scenarios' agreement oracle; the model's link delivers batches in order, the real sender "
+              "(ClusteSyncSender) starts one request per 500 ms batch without waiting for the previous one - order is an "
+              "assumption about the transport, not enforced by the code; open known finding F33: a persistent registration "
+              "re-registered as ephemeral within the commit latency is lost on every node (the nodes agree; the generated "
+              "scenarios keep such operations 1.5 s apart); observed: a register/deregister/register of one persistent "
+              "instance issued back to back can lose the last registration likewise - recorded in DESIGN.md"),
         technique="Lean 4 theorem (invariant over all interleavings of a message-level model) + real 3-process cluster scenarios with an agreement oracle"),
     "C09": dict(
         category="proof",
